@@ -681,9 +681,14 @@ func (s *Subscription) processCollectionEvent(event *rescache.ResourceEvent) {
 		s.c.Send(rpc.NewEvent(s.rid, event.Event, event.Payload))
 
 	case "delete":
-		s.state = stateDeleted
 		s.c.Send(rpc.NewEvent(s.rid, event.Event, event.Payload))
+		// Remove the direct subscriptions prior to marking the subscription as
+		// deleted, or else the resources it references, no longer held by the
+		// client, are not considered sent and will not be unsent.
 		s.unsubscribeDirect(reserr.ErrDeleted)
+		if s.state != stateDisposed {
+			s.state = stateDeleted
+		}
 	default:
 		s.c.Send(rpc.NewEvent(s.rid, event.Event, event.Payload))
 	}
@@ -778,9 +783,14 @@ func (s *Subscription) processModelEvent(event *rescache.ResourceEvent) {
 			})
 		}
 	case "delete":
-		s.state = stateDeleted
 		s.c.Send(rpc.NewEvent(s.rid, event.Event, event.Payload))
+		// Remove the direct subscriptions prior to marking the subscription as
+		// deleted, or else the resources it references, no longer held by the
+		// client, are not considered sent and will not be unsent.
 		s.unsubscribeDirect(reserr.ErrDeleted)
+		if s.state != stateDisposed {
+			s.state = stateDeleted
+		}
 	default:
 		s.c.Send(rpc.NewEvent(s.rid, event.Event, event.Payload))
 	}
